@@ -7,6 +7,7 @@ replace github.com/olive-io/bpmn/v2 => /repo
 replace github.com/olive-io/bpmn/schema => /repo/schema
 
 require (
+	github.com/muyo/sno v1.2.1
 	github.com/olive-io/bpmn/schema v1.8.0
 	github.com/olive-io/bpmn/v2 v2.0.0-00010101000000-000000000000
 )
@@ -24,7 +25,6 @@ require (
 	github.com/hashicorp/errwrap v1.0.0 // indirect
 	github.com/hashicorp/go-multierror v1.1.1 // indirect
 	github.com/klauspost/cpuid/v2 v2.2.10 // indirect
-	github.com/muyo/sno v1.2.1 // indirect
 	github.com/pkg/errors v0.9.1 // indirect
 	github.com/qri-io/iso8601 v0.1.0 // indirect
 	github.com/tidwall/gjson v1.18.0 // indirect
